@@ -46,6 +46,8 @@ MUTANTS["C12"] = [
     ("task-timeout-counts-from-pool-start", "annet/parallel.py", "                    worker_name, _, in_thread_results, exc = done_queue.get(True, 0.1 if pool_was_empty else 1)\n                    last_task_ts = time.monotonic()\n",
      "                    worker_name, _, in_thread_results, exc = done_queue.get(True, 0.1 if pool_was_empty else 1)\n"),
     ("callback-lists-shared-by-all-pools", "annet/parallel.py", "        self.callbacks = []\n        self.in_thread_callbacks = []", "        self.callbacks = Parallel.__dict__.get('_vf_cb') or []\n        self.in_thread_callbacks = Parallel.__dict__.get('_vf_icb') or []\n        Parallel._vf_cb, Parallel._vf_icb = self.callbacks, self.in_thread_callbacks"),
+    ("abort-joins-live-workers-without-terminating", "annet/parallel.py", "                            worker.terminate()\n                            _logger.warning(\"Worker '%s' (PID: %d) has been terminated\", name, worker.pid)", "                            if terminate_by_timeout:\n                                worker.terminate()"),
+    ("failure-message-first-line-only", "annet/parallel.py", "            orig_exc.__class__,\n            str(orig_exc),", "            orig_exc.__class__,\n            str(orig_exc).splitlines()[0],"),
 ]
 
 MUTANTS["C01"] = [
